@@ -2907,7 +2907,7 @@ func (p *wat2X64Worker) buildFunc_ins(
 
 		fmt.Fprintf(w, "    # f32.neg\n")
 		fmt.Fprintf(w, "    mov eax, dword ptr [rbp%+d]\n", sp0)
-		fmt.Fprintf(w, "    xor rax, 0x80000000\n")
+		fmt.Fprintf(w, "    xor eax, 0x80000000\n")
 		fmt.Fprintf(w, "    mov dword ptr [rbp%+d], eax\n", ret0)
 		fmt.Fprintln(w)
 
